@@ -44,24 +44,40 @@ DESC = {
  "C10-b": ("didstore writeEventList: MetaRef only set when empty", "out-of-order insert followed by another Add"),
  "C11-a": ("revocation Credential(): list loaded and signed before the transaction; only lock+upsert inside", "revocation committing during the signing window of a refresh"),
  "C11-b": ("revocation verifier update(): OnConflict explicit column list omits bitstring", "cache, revoke, refresh, verify again within 15 min"),
+ "C11-c": ("verifier RegisterRevocation: subject-belongs-to-issuer check uses strings.HasPrefix(subject, issuer) instead of comparing the DID before '#'", "a correctly signed revocation from a DID that is a string prefix of the victim issuer's DID"),
+ "C11-d": ("statuslist2021 Revoke(): failure of the final upsert of the re-issued status_list_credential row is logged and ignored", "write fault on the credential row while the revocation row commits"),
  "C12-a": ("pe matchSubmissionRequirements: descriptor map emitted in input-descriptor order (no longer aligned with vcs)", "submission-requirement order differing from descriptor order"),
  "C12-b": ("pe vcEqual: fast path compares by credential id", "two distinct credentials sharing an id with submission requirements"),
+ "C12-c": ("pe PresentationSubmission.Resolve: a second descriptor-map entry for an already resolved input descriptor is skipped with continue instead of being an error", "surplus/forged second mapping after a correct first one"),
+ "C12-d": ("pe CredentialsRequired: with submission requirements and no 'all' rule and no 'pick' with min>0 it returns false (overlooks pick with count)", "unfulfillable 'pick count 1' definition: Build returns an empty submission, Validate accepts an empty one"),
  "C13-a": ("didsubject transactionHelper: commit loop continues after a failing Commit; errManager overwritten by a later success", "two methods, failing one visited first (map order)"),
  "C13-b": ("didsubject Rollback: sweep decides per document version instead of per transaction id", "process stop between DB write and publish with two methods"),
+ "C13-c": ("didsubject SqlManager.Create: subject-exists check moved out of the DB transaction, in front of transactionHelper ('fail fast')", "two overlapping Create calls for the same subject"),
+ "C13-d": ("didsubject transactionHelper: did_change_log records not saved when fewer than 2 documents changed (every single-method node)", "stop between the DB write and the publish"),
  "C14-a": ("dag state.Add: payload written and payload event saved only if the payload hash is not yet stored", "two transactions with byte-identical payload"),
  "C14-b": ("dag notifier: Event.failed() (Retries>=10) used in Run() instead of Retries<maxRetries", ">=10 failures, restart, failure at startup"),
+ "C14-c": ("dag notifier Notify(): retry decision changed from !errors.As(err, new(EventFatal)) to retry.IsRecoverable(err); notifyNow wraps storage errors as unrecoverable", "transient DB fault during the first delivery attempt"),
+ "C14-d": ("dag state.WritePayload: single write transaction split in two (payload first, subscriber events in a second transaction)", "stop / cancel / Save failure between the two"),
  "C15-a": ("grpc authenticate(): shortcut marks peer authenticated when the claimed node DID already has an authenticated connection", "node claiming a connected participant's DID"),
  "C15-b": ("dag State.Add: for a present tx with missing payload, stores the supplied payload without hash check", "peer sends forged payload in a transaction list for a known private tx"),
  "C16-a": ("discovery validateRetraction: existence looked up by JWT sub claim instead of the presentation signer", "retraction with sub different from signer"),
  "C16-b": ("discovery wipeOnSeedChange: gorm Updates(struct) skips zero LastLamportTimestamp", "server seed change with lower timestamps"),
+ "C16-c": ("discovery updateValidated: one batched UPDATE keyed on presentation_id (the VP's jti) instead of the row's primary key", "same jti on two rows (replay on a second service / forged VP reusing an id)"),
+ "C16-d": ("discovery sqlStore.get: the two non-transactional reads swapped (entries first, service row/timestamp last)", "registration committing between the two SELECTs"),
  "C17-a": ("dpop jwkIsPrivateKey: type switch on RSA/EC private JWK only, forgets OKP", "EdDSA DPoP proof embedding an Ed25519 private key"),
  "C17-b": ("dag ParseTransaction: multiple-signature branch dropped", "JSON-serialised transaction with a forged first signature and the victim's signature second"),
+ "C17-c": ("ldproof LDProof.Verify: signature algorithm taken from the alg header of the detached JWS instead of from the key, never checked against the allow-list", "proof made with RS256"),
+ "C17-d": ("verifier jwtSignature: key-belongs-to-issuer check changed to !strings.HasPrefix(keyID, issuer)", "JWT VC of did:web:example.com:iam:alice signed by a key of ...:alice-evil"),
  "C18-a": ("didweb Resolve: id check compares Method and percent-decoded ID instead of Equals", "did:web with %3A port vs ':'"),
  "C18-b": ("resolver ChainedDIDResolver: continues on any functional resolve error, not only ErrNotFound", "locally managed did:web deactivated, then resolved"),
+ "C18-c": ("didweb DIDToURL: IP test done before building the URL on the decoded id which still carries the port", "did:web:127.0.0.1%3A8443"),
+ "C18-d": ("didsubject Resolver.Resolve: deactivation check only enforced when no ResolveTime is given", "created-then-deactivated managed DID resolved with ResolveTime set"),
  "C19-a": ("didnuts handleUpdateDIDDocument: resolve helper swallows ErrNotFound also in the latest-version fallback, returning (nil, nil) that is dereferenced", "update transaction for a DID whose create was never received"),
  "C19-b": ("tree Iblt.Decode: visited-set loop guard removed", "peer IBLT crafted so that decoding cycles"),
  "C20-a": ("core loadFromFlagSet: flags.Visit with err overwritten by later flags", "secret flag followed by a later-sorting non-secret flag"),
  "C20-b": ("http configureClient: early return for ResponseCacheSize<=0 placed above client.StrictMode assignment", "http.cache.maxbytes=0 in strict mode"),
+ "C20-c": ("jsonld filteredDocumentLoader.LoadDocument: allow-list entries matched with strings.HasPrefix(u, allowedURL) instead of ==", "https://schema.org.attacker.tld/... in strict mode"),
+ "C20-d": ("core ServerConfig.Load: moved-key refusal checks ngc.LegacyTLS.Enabled() (ignores the trust store) instead of the three legacy fields", "config carrying only network.truststorefile"),
 }
 # round 3 (blind): result of the first run of the finished rule set on the seed, and what was done about a miss
 BLIND = {
@@ -83,6 +99,22 @@ BLIND = {
  "C08-d": ("caught", "by C19.D4 only (incidental); added C08.tree.no-shared-data afterwards"),
  "C09-c": ("caught", ""),
  "C09-d": ("caught", ""),
+ "C11-c": ("caught", ""),
+ "C11-d": ("missed", "blind miss; added C11.revoke.effective-or-fails.* (Revoke succeeds only if the list was rebuilt and stored)"),
+ "C12-c": ("missed", "blind miss; added C12.resolve.duplicate-descriptor-is-rejected (REFUSE, not merely 'not recorded')"),
+ "C12-d": ("missed", "blind miss; added C12.credentials-required.false-only-without-descriptors"),
+ "C13-c": ("missed", "blind miss; added C13.create.exists-check-in-tx / generate-only-if-absent"),
+ "C13-d": ("caught", ""),
+ "C14-c": ("missed", "blind miss; added C14.notify.failed-live-delivery-is-retried / retry-decision-only-after-failure"),
+ "C14-d": ("missed", "blind miss; added C14.save.writepayload-same-tx"),
+ "C16-c": ("missed", "blind miss; added C16.store.validated-flag-by-primary-key"),
+ "C16-d": ("caught", ""),
+ "C17-c": ("caught", ""),
+ "C17-d": ("caught", "by C01.jwt.kid-of-issuer"),
+ "C18-c": ("caught", "by C18.url.ip-test-on-hostname, added an hour earlier after a hand-written mutant survived"),
+ "C18-d": ("caught", ""),
+ "C20-c": ("missed", "blind miss; added C20.jsonld.filter-is-exact-match"),
+ "C20-d": ("caught", ""),
  "C10-c": ("missed", "blind miss; added C10.add.two-phase-write"),
  "C10-d": ("caught", ""),
 }
